@@ -126,7 +126,7 @@ func guardLen(v ssa.Value, at ssa.Instruction) int64 {
 	best := int64(0)
 	isLenOf := func(x ssa.Value) bool {
 		call, ok := stripConv(x).(*ssa.Call)
-		return ok && calleeName(&call.Call) == "builtin.len" && sameValue(call.Call.Args[0], v)
+		return ok && calleeName(&call.Call) == "builtin.len" && sameExpr(call.Call.Args[0], v)
 	}
 	for _, a := range AtomsAt(at) {
 		if a.Kind != "cmp" {
@@ -189,7 +189,7 @@ func neededLen(at ssa.Instruction) (base ssa.Value, need int64, ok bool) {
 		}
 		// x[len(x)-K:]
 		if bo, isB := x.Low.(*ssa.BinOp); isB && bo.Op == token.SUB {
-			if call, isC := stripConv(bo.X).(*ssa.Call); isC && calleeName(&call.Call) == "builtin.len" && sameValue(call.Call.Args[0], x.X) {
+			if call, isC := stripConv(bo.X).(*ssa.Call); isC && calleeName(&call.Call) == "builtin.len" && sameExpr(call.Call.Args[0], x.X) {
 				if k, isK := intConst(bo.Y); isK {
 					return x.X, k, true
 				}
